@@ -437,3 +437,75 @@ Theorem C19_status_class_sound : forall code c,
   In c classes /\ c_code c = code /\ startswith [95] (c_name c) = false /\ mem_text (c_name c) status_map_excluded = false.
 Proof. exact status_class_sound. Qed.
 Print Assumptions C19_status_class_sound.
+
+(* ================= proof-only round: end-to-end statements over all sites ================= *)
+Require Import Verif.Proofs.C19_e2e.
+
+(* a response is labelled text/html only when the HTML form was negotiated: plain-text and JSON bodies
+   (supplied text verbatim) are never served as text/html -- specification, regenerated program on any
+   input (incl. the class exception_response picked), and with the constructor keywords *)
+Theorem C19_html_label_only_html_form : forall i o,
+  spec i = Some (Ok o) -> o_ctype o = t_html -> chosen_type i = t_html.
+Proof. exact html_label_only_html_form. Qed.
+Print Assumptions C19_html_label_only_html_form.
+Theorem C19_model_label : forall i o, model i = Some (Ok o) -> o_ctype o = t_html -> chosen_type i = t_html.
+Proof. exact model_label. Qed.
+Print Assumptions C19_model_label.
+Theorem C19_model_x_label : forall x o, model_x x = Some (Ok o) -> o_ctype o = t_html -> chosen_type (x_in x) = t_html.
+Proof. exact model_x_label. Qed.
+Print Assumptions C19_model_x_label.
+
+(* the same through the five raise sites and the four message sites *)
+Theorem C19_site_label : forall name g f r en ofs o,
+  site_gen name = Some g -> site_ref name = Some f ->
+  model (input_of (g r) en ofs) = Some (Ok o) -> o_ctype o = t_html ->
+  chosen_type (input_of (f r) en ofs) = t_html.
+Proof. exact site_label. Qed.
+Print Assumptions C19_site_label.
+Theorem C19_msite_label : forall name args g en ofs o,
+  msite_gen name args = Some g ->
+  model (input_of_m g en ofs) = Some (Ok o) -> o_ctype o = t_html -> chosen_type (input_of_m g en ofs) = t_html.
+Proof. exact msite_label. Qed.
+Print Assumptions C19_msite_label.
+
+(* message sites end to end (formats regenerated from the source -> bytes of the HTML page): fixed text that
+   depends on class and explanation only, the html-escaped message, fixed text; the escaped message has no
+   markup character and is ASCII *)
+Theorem C19_msite_html_safe : forall name args g en ofs,
+  msite_gen name args = Some g ->
+  chosen_type (input_of_m g en ofs) = t_html ->
+  exists c,
+    find_cls (fst (fst g)) classes = Some c /\
+    model (input_of_m g en ofs) =
+      Some (rmap (mkOutput (status_of c) t_html cs_utf8)
+                 (utf8_bytes (page_pre c (match snd g with Some e => e | None => c_expl c end)
+                              ++ html_escape (snd (fst g)) ++ page_post))) /\
+    (forall ch, In ch (html_escape (snd (fst g))) -> is_markup ch = false /\ ch <? 128 = true).
+Proof. exact msite_html_safe. Qed.
+Print Assumptions C19_msite_html_safe.
+
+(* the not-found raise sites end to end (router, static view missing / out of bounds): the detail is a request
+   property behind a fixed prefix and reaches the HTML page only through html_escape *)
+Theorem C19_site_html_safe : forall name g f r en ofs,
+  detail_site name = true -> site_gen name = Some g -> site_ref name = Some f ->
+  chosen_type (input_of (f r) en ofs) = t_html ->
+  exists c d,
+    find_cls n_HTTPNotFound classes = Some c /\ ra_detail (f r) = Some d /\
+    (exists pre, d = pre ++ r_path_info r \/ d = pre ++ r_url r) /\
+    model (input_of (g r) en ofs) =
+      Some (rmap (mkOutput (status_of c) t_html cs_utf8)
+                 (utf8_bytes (page_pre c (c_expl c) ++ html_escape d ++ page_post))) /\
+    (forall ch, In ch (html_escape d) -> is_markup ch = false /\ ch <? 128 = true).
+Proof. exact site_html_safe. Qed.
+Print Assumptions C19_site_html_safe.
+
+(* exception_response(code) for a default-template class: explicit HTML page of the regenerated program *)
+Theorem C19_factory_html_safe : forall code c i,
+  status_class code = Some c -> find_cls (c_name c) classes = Some c -> i_cls i = c_name c ->
+  c_empty c = false -> c_default_tmpl c = true -> i_tmpl i = None -> i_comment i = None -> chosen_type i = t_html ->
+  c_code c = code /\
+  model i = Some (rmap (mkOutput (status_of c) t_html cs_utf8)
+                       (utf8_bytes (page_pre c (expl_of c i) ++ html_escape (or_empty (i_detail i)) ++ page_post))) /\
+  (forall ch, In ch (html_escape (or_empty (i_detail i))) -> is_markup ch = false /\ ch <? 128 = true).
+Proof. exact factory_html_safe. Qed.
+Print Assumptions C19_factory_html_safe.
